@@ -800,7 +800,21 @@ func (pe *PolicyEngine) addRepresentativePod(podNs string, objSelectors *k8s.Sin
 			existing.Pod.RepresentativeNsLabelSelector = nsLabelSelector
 			existing.Pod.RepresentativePodLabelSelector = objSelectors.PodSelector
 		}
+		// the same holds for the namespace of the representative peer: a rule without namespaceSelector gives the
+		// policy's (real) namespace, while an equivalent rule which names that namespace by its label gives none
+		if existing.Pod.Namespace == "" && podNs != "" {
+			if err := pe.resolveSingleMissingNamespace(podNs); err != nil {
+				return err
+			}
+			existing.Pod.Namespace = podNs
+		}
 		return nil
+	}
+	if podNs != "" {
+		// the policy's namespace might have no manifest and no workloads; the representative peer needs its object
+		if err := pe.resolveSingleMissingNamespace(podNs); err != nil {
+			return err
+		}
 	}
 	// create a new representative peer
 	newRepresentativePeer := &k8s.WorkloadPeer{Pod: newPod}
